@@ -653,3 +653,209 @@ Proof. apply holds_component. intros c m o H. apply chk_all_split in H. tauto. Q
 
 Lemma client_trace_ok_holds t0 evs : trace_ok chk_all (trace (init t0) evs) = true.
 Proof. unfold trace_ok. apply is_empty_true, all_checks_hold. Qed.
+
+(* ---- shutdown keeps synchronizing ------------------------------------------------- *)
+
+Definition has_sync (o : list out) : bool :=
+  existsb (fun x => match x with OSync _ _ _ => true | _ => false end) o.
+
+Lemma has_sync_app a b : has_sync (a ++ b) = has_sync a || has_sync b.
+Proof. apply existsb_app. Qed.
+
+(* While the scheduler may still think the worker is executing, a Run during
+   shutdown does not return early: it performs a Synchronize. *)
+Lemma shutdown_keeps_synchronizing_holds s r u :
+  s_until s = Some u -> r_now r <= u -> has_sync (snd (run_step s r)) = true.
+Proof.
+  intros Hu Hn. unfold run_step. rewrite Hu. cbn [is_some negb andb].
+  assert (E : (u <? r_now r) = false) by (apply Z.ltb_ge; exact Hn). rewrite E, andb_false_r.
+  destruct (phase_updates (s_rep s) (s_next s) (r_now r) (s_slot s) (r_sel r)) as [[[rep next] sl] o2].
+  destruct (prefer_of rep (Some u)) as [p ce].
+  destruct (match sl with
+            | Some x => let '(x', o) := xsteps x (r_sync r) in (Some x', o)
+            | None => (None, [])
+            end) as [sl4 o4].
+  assert (H : forall tl, has_sync (([] ++ o2 ++ [OSync rep (if r_shutdown r then true else p) true] ++ o4) ++ tl) = true).
+  { intros tl. rewrite !has_sync_app. cbn. rewrite !orb_true_r. reflexivity. }
+  destruct (r_reply r) as [|[ts|] ds]; cbn [snd]; try apply H.
+  destruct ds; cbn [snd]; try apply H. destruct ce; cbn [snd]; apply H.
+Qed.
+
+(* ---- "scheduler cannot think we execute" implies nothing is executing --------------- *)
+
+Definition quiet (s : state) : Prop :=
+  s_until s = None -> match s_slot s with Some x => x_finished x = true | None => True end.
+
+Lemma xstep_fin_mono x e x' o : xstep x e = (x', o) -> x_finished x = true -> x_finished x' = true.
+Proof.
+  unfold xstep. intros H F. destruct e as [k|ok tag|].
+  - rewrite F in H. cbn in H. injection H as <- _. exact F.
+  - rewrite F in H. cbn in H. injection H as <- _. exact F.
+  - destruct (x_finished x && negb (is_some (x_pending x)) && negb (x_closed x)); injection H as <- _; exact F.
+Qed.
+
+Lemma xsteps_fin_mono es : forall x x' o, xsteps x es = (x', o) -> x_finished x = true -> x_finished x' = true.
+Proof.
+  induction es as [|e r IH]; intros x x' o H F; cbn [xsteps] in H.
+  - injection H as <- _. exact F.
+  - destruct (xstep x e) as [x1 o1] eqn:E1. destruct (xsteps x1 r) as [x2 o2] eqn:E2.
+    injection H as <- _. eapply IH; [exact E2|]. eapply xstep_fin_mono; eassumption.
+Qed.
+
+Lemma step_quiet s m e :
+  Inv (s_rep s) (s_slot s) m -> quiet s -> quiet (fst (step s e)).
+Proof.
+  intros Hinv Hq. destruct e as [r|x]; cbn [step].
+  2:{ destruct (s_slot s) as [sl|] eqn:Esl; [|exact Hq].
+      destruct (xstep sl x) as [sl' o] eqn:Ex. cbn [fst]. intros Hu. cbn [s_until s_slot] in *.
+      eapply xstep_fin_mono; [exact Ex|]. specialize (Hq Hu). rewrite Esl in Hq. exact Hq. }
+  unfold run_step.
+  destruct (r_shutdown r && match s_until s with None => true | Some u => u <? r_now r end); [exact Hq|].
+  destruct (negb (is_some (s_until s)) && negb (r_ready r)); [exact Hq|].
+  destruct (phase_updates (s_rep s) (s_next s) (r_now r) (s_slot s) (r_sel r)) as [[[rep next] sl] o2] eqn:Ep.
+  destruct (prefer_of rep (s_until s)) as [p ce] eqn:Epf.
+  destruct (match sl with
+            | Some x => let '(x', o) := xsteps x (r_sync r) in (Some x', o)
+            | None => (None, [])
+            end) as [sl4 o4] eqn:Es.
+  assert (Hunt : match s_until s with None => touch next | Some u => Some u end <> None).
+  { destruct (s_until s); discriminate. }
+  destruct (r_reply r) as [|[ts|] ds]; cbn [fst]; try (intros Hu; cbn [s_until] in Hu; contradiction).
+  destruct ds as [| |d| |]; cbn [fst].
+  3:{ intros Hu. cbn [s_until] in Hu. discriminate. }
+  3:{ intros Hu. cbn [s_until] in Hu. contradiction. }
+  3:{ intros Hu. cbn [s_until] in Hu. contradiction. }
+  - (* no change *)
+    destruct ce; cbn [fst]; intros Hu; cbn [s_until s_slot] in *; [discriminate|].
+    destruct (phase_updates_ok (mkCtx (ERun r) (observe s)) _ _ _ _ _ _ _ _ _ _ Hinv Ep) as (_ & Hi2 & _).
+    destruct sl as [x|]; [|injection Es as <- _; exact I].
+    destruct (xsteps x (r_sync r)) as [x' o'] eqn:Ex. injection Es as <- _.
+    eapply xsteps_fin_mono; [exact Ex|].
+    destruct Hi2 as [(_ & (cu & _ & _ & (st & Hrep & _) & _) & Hseq & _) _].
+    rewrite Hrep in Epf, Hseq. cbn [rep_stage app] in Hseq.
+    destruct st as [|k|ok tag]; cbn in Epf; try discriminate.
+    eapply (seq_ok_done_head _ (StDone ok tag)); [reflexivity|exact Hseq].
+  - (* idle *) intros _. exact I.
+Qed.
+
+Lemma run_quiet evs : forall s m, Inv (s_rep s) (s_slot s) m -> quiet s -> quiet (run s evs).
+Proof.
+  induction evs as [|e r IH]; intros s m Hinv Hq; cbn [run]; [exact Hq|].
+  destruct (step s e) as [s' o] eqn:Es.
+  destruct (step_ok _ _ _ _ _ Hinv Es) as [_ Hi]. cbn [fst].
+  eapply IH; [exact Hi|]. pose proof (step_quiet s m e Hinv Hq) as H. rewrite Es in H. exact H.
+Qed.
+
+Lemma until_none_nothing_running_holds t0 evs :
+  let s := run (init t0) evs in
+  s_until s = None -> match s_slot s with Some x => x_finished x = true | None => True end.
+Proof. apply (run_quiet evs (init t0) mon_init); [apply Inv_init|]. intros _. exact I. Qed.
+
+(* ---- the channel never holds more than its capacity -------------------------------- *)
+
+Definition chan_ok (x : slot) : Prop :=
+  (List.length (x_queue x) <= chan_cap)%nat
+  /\ (x_pending x <> None -> List.length (x_queue x) = chan_cap).
+
+Definition chan_ok_opt (o : option slot) : Prop :=
+  match o with Some x => chan_ok x | None => True end.
+
+Lemma enqueue_chan_ok x u x' r :
+  x_pending x = None -> chan_ok x -> enqueue x u = (x', r) -> chan_ok x'.
+Proof.
+  intros Hp [H1 H2]. unfold enqueue. destruct (Nat.ltb (List.length (x_queue x)) chan_cap) eqn:E.
+  - intros [= <- _]. apply Nat.ltb_lt in E. split; cbn [x_queue x_pending].
+    + rewrite app_length. cbn. lia.
+    + rewrite Hp. congruence.
+  - intros [= <- _]. apply Nat.ltb_ge in E. split; cbn [x_queue x_pending]; [exact H1|]. intros _. lia.
+Qed.
+
+Lemma xstep_chan_ok x e x' o : chan_ok x -> xstep x e = (x', o) -> chan_ok x'.
+Proof.
+  intros H. unfold xstep. destruct e as [k|ok tag|].
+  - destruct (x_finished x || is_some (x_pending x)) eqn:E; [intros [= <- _]; exact H|].
+    apply or_false_split in E as [_ E]. apply is_some_false in E.
+    destruct (enqueue x (x_dig x, StUpd k)) as [x1 r] eqn:En. intros [= <- _].
+    eapply enqueue_chan_ok; eassumption.
+  - destruct (x_finished x || is_some (x_pending x)) eqn:E; [intros [= <- _]; exact H|].
+    apply or_false_split in E as [_ E]. apply is_some_false in E.
+    destruct (enqueue (set_finished x) (x_dig x, StDone ok tag)) as [x1 r] eqn:En. intros [= <- _].
+    eapply enqueue_chan_ok; [| |exact En]; [exact E|exact H].
+  - destruct (x_finished x && negb (is_some (x_pending x)) && negb (x_closed x)); intros [= <- _]; exact H.
+Qed.
+
+Lemma xsteps_chan_ok es : forall x x' o, chan_ok x -> xsteps x es = (x', o) -> chan_ok x'.
+Proof.
+  induction es as [|e r IH]; intros x x' o H Hx; cbn [xsteps] in Hx.
+  - injection Hx as <- _. exact H.
+  - destruct (xstep x e) as [x1 o1] eqn:E1. destruct (xsteps x1 r) as [x2 o2] eqn:E2.
+    injection Hx as <- _. eapply IH; [|exact E2]. eapply xstep_chan_ok; eassumption.
+Qed.
+
+Lemma recv_chan_ok x r x' : chan_ok x -> recv x = (r, x') -> chan_ok x'.
+Proof.
+  intros [H1 H2]. unfold recv. destruct (x_queue x) as [|u q] eqn:Q.
+  - destruct (x_closed x); intros [= _ <-]; split; rewrite ?Q; auto.
+  - intros [= _ <-]. split; cbn [x_queue x_pending]; [|congruence].
+    rewrite app_length. cbn [List.length] in H1, H2. destruct (x_pending x); cbn.
+    + specialize (H2 ltac:(discriminate)). lia.
+    + lia.
+Qed.
+
+Lemma consume_chan_ok fuel : forall rep x rep' sl',
+  chan_ok x -> consume fuel rep x = (rep', sl') -> chan_ok_opt sl'.
+Proof.
+  induction fuel as [|f IH]; intros rep x rep' sl' H Hc; cbn [consume] in Hc.
+  - injection Hc as _ <-. exact H.
+  - destruct (recv x) as [[| |[d st]] x1] eqn:Er.
+    + injection Hc as _ <-. exact H.
+    + injection Hc as _ <-. exact I.
+    + eapply IH; [|exact Hc]. eapply recv_chan_ok; eassumption.
+Qed.
+
+Lemma phase_updates_chan_ok rep next now sl sel rep' next' sl' o :
+  chan_ok_opt sl -> phase_updates rep next now sl sel = (rep', next', sl', o) -> chan_ok_opt sl'.
+Proof.
+  intros H. unfold phase_updates. destruct sl as [x|]; [|intros [= _ _ <- _]; exact I].
+  destruct (if avail x then (x, []) else xsteps x sel) as [x1 o2] eqn:Ex.
+  assert (H1 : chan_ok x1).
+  { destruct (avail x); [injection Ex as <- _; exact H|eapply xsteps_chan_ok; eassumption]. }
+  destruct (recv x1) as [[| |[d st]] x2] eqn:Er.
+  - intros [= _ _ <- _]. exact H1.
+  - intros [= _ _ <- _]. exact I.
+  - destruct (consume (consume_fuel x2) (RExec d st) x2) as [r' s'] eqn:Ec. intros [= _ _ <- _].
+    eapply consume_chan_ok; [|exact Ec]. eapply recv_chan_ok; eassumption.
+Qed.
+
+Lemma step_chan_ok s e : chan_ok_opt (s_slot s) -> chan_ok_opt (s_slot (fst (step s e))).
+Proof.
+  intros H. destruct e as [r|x]; cbn [step].
+  2:{ destruct (s_slot s) as [sl|] eqn:Esl; [|cbn; rewrite Esl; exact I].
+      destruct (xstep sl x) as [sl' o] eqn:Ex. cbn. eapply xstep_chan_ok; eassumption. }
+  unfold run_step.
+  destruct (r_shutdown r && match s_until s with None => true | Some u => u <? r_now r end); [exact H|].
+  destruct (negb (is_some (s_until s)) && negb (r_ready r)); [exact H|].
+  destruct (phase_updates (s_rep s) (s_next s) (r_now r) (s_slot s) (r_sel r)) as [[[rep next] sl] o2] eqn:Ep.
+  destruct (prefer_of rep (s_until s)) as [p ce].
+  destruct (match sl with
+            | Some x => let '(x', o) := xsteps x (r_sync r) in (Some x', o)
+            | None => (None, [])
+            end) as [sl4 o4] eqn:Es.
+  assert (H4 : chan_ok_opt sl4).
+  { pose proof (phase_updates_chan_ok _ _ _ _ _ _ _ _ _ H Ep) as H2.
+    destruct sl as [x|]; [|injection Es as <- _; exact I].
+    destruct (xsteps x (r_sync r)) as [x' o'] eqn:Ex. injection Es as <- _.
+    eapply xsteps_chan_ok; eassumption. }
+  assert (Hnew : forall id d, chan_ok (mkSlot id d [] None false false)).
+  { intros id d. split; cbn; [unfold chan_cap; lia|congruence]. }
+  destruct (r_reply r) as [|[ts|] ds]; cbn [fst s_slot]; try exact H4.
+  destruct ds; cbn [fst s_slot]; try exact H4; try exact I; [|apply Hnew].
+  destruct ce; cbn [fst s_slot]; exact H4.
+Qed.
+
+Lemma channel_bounded_holds t0 evs : chan_ok_opt (s_slot (run (init t0) evs)).
+Proof.
+  assert (G : forall evs s, chan_ok_opt (s_slot s) -> chan_ok_opt (s_slot (run s evs))).
+  { induction evs0 as [|e r IH]; intros s H; cbn [run]; [exact H|]. apply IH, step_chan_ok, H. }
+  apply G. exact I.
+Qed.
